@@ -1,6 +1,6 @@
 """Pool classes of Observe.tla (module level so that Instance("NodeBase") resolves and objects pickle)."""
 from traits.api import (HasTraits, Instance, List, Dict, Set, CStr, Int, Property, cached_property, observe,
-                        ComparisonMode)
+                        ComparisonMode, Union)
 
 
 class NodeBase(HasTraits):
@@ -11,6 +11,8 @@ class NodeBase(HasTraits):
     d = Dict(CStr, Instance("NodeBase"), copy="deep")
     s = Set(Instance("NodeBase"))
     dl = Dict(CStr, List(Instance("NodeBase")), copy="deep")      # a nested container
+    # a list or an int: observed with list_items() of the expression API, which REQUIRES a list
+    box = Union(List(Instance("NodeBase")), Int)
 
 
 RUNS = {}          # (id(object), property name) -> number of getter runs
@@ -40,6 +42,10 @@ class RootBase(Node):
     """the class of the ROOT object only: observed properties (their class-level observers require `value` on
     every item of root.kids and on root.child)"""
     w = Int             # its static handler reads the cached property (also while an object is being copied)
+
+    def __len__(self):
+        # a container-like object: FALSY while it has no kids (nothing in the framework may take "falsy" for "gone")
+        return len(self.__dict__.get("kids", ()))
 
     #: declared with observe dependencies and an UNCACHED getter here; CNode overrides the getter as cached
     csnap = Property(observe="kids.items.value")
